@@ -7,9 +7,10 @@ package comments
 import "golang.org/x/tools/go/packages"
 
 func VerifHarness_C16_ParseDocsTags() {
-	tags := ""
-	if nondetChoice("hasTags", 2) == 1 {
-		tags = nondetAtom("tags")
+	// any tag list of up to 3 bytes (may contain commas)
+	tags := nondetString("tags", 3)
+	for i := 0; i < len(tags); i++ {
+		verifAssume(tags[i] > ' ')
 	}
 	cwd := nondetAtom("cwd")
 	convs, err := ParseDocs(ParseDocsConfig{PackagePattern: []string{"./..."}, WorkingDir: cwd, BuildTags: tags})
